@@ -83,7 +83,9 @@ FAMS_4 = ["vj-mgga", "vj-gga", "vk-mgga", "sdmx"]  # nfeat >= 4 (nlda_x_damp rea
 EV_FLAT = ["rbf", "kernel", "antisym", "linear", "subset", "rbf1", "kernel-agpr", "kernel-subset",
            "rbf+linear", "kernel+rbf+linear", "antisym+rbf", "subset-strict", "subset-list", "subset-strict+linear",
            # a strict-subset evaluator AFTER evaluators that wrote the same derivative columns (it must add, not overwrite)
-           "kernel+subset-strict", "rbf+subset-list", "linear+rbf+subset-strict"]
+           "kernel+subset-strict", "rbf+subset-list", "linear+rbf+subset-strict",
+           # integer-typed length scales (legal for an sklearn RBF; the value path casts, the derivative path must too)
+           "kernel-int", "rbf-int"]
 EV_POL = ["spinrbf", "spinrbf+spinrbf", "spinrbf1"]
 
 
@@ -201,7 +203,7 @@ def gen_cases(tier, seed):
     reps = 1 if tier == "quick" else 5
     for r in range(reps):
         for ev in ["rbf", "rbf1", "subset", "subset-strict", "subset-list", "kernel", "kernel-asym", "kernel-agpr",
-                   "kernel-subset", "antisym", "spinrbf", "spinrbf1", "linear", "nn"]:
+                   "kernel-subset", "antisym", "spinrbf", "spinrbf1", "linear", "nn", "kernel-int", "rbf-int"]:
             dire.append(dict(cls="ev", ev=ev, n1=int(rng.integers(3, 6))))
     add_cases("dir", "direct", dire, 7)
     # splines: few cases (numba JIT ~15 s per process)
@@ -346,6 +348,13 @@ def _evaluator(kind, n1, rng, feature_list=None, nctrl=10, amp=0.5):
     cval = float(rng.uniform(0.5, 2.0))
     if kind in ("rbf", "kernel", "linear", "spinrbf"):
         return gen.rand_evaluator(kind, n1, rng, nctrl=nctrl, amp=amp)
+    if kind in ("kernel-int", "rbf-int"):
+        lsi = rng.integers(1, 4, size=n1)
+        lsi[int(rng.integers(n1))] = 2
+        kern = DiffConstantKernel(cval) * DiffRBF(lsi if rng.random() < 0.7 else int(lsi[0]))
+        if kind == "rbf-int" and np.ndim(kern.k2.length_scale) == 0:
+            kern = DiffConstantKernel(cval) * DiffRBF(lsi)
+        return (xe.KernelEvaluator if kind == "kernel-int" else xe.RBFEvaluator)(kern, ctrl, alpha)
     if kind == "rbf1":  # bare DiffRBF (scale = 1 branch of the constructor)
         return xe.RBFEvaluator(DiffRBF(ls), ctrl, alpha)
     if kind == "spinrbf1":
